@@ -23,7 +23,7 @@ func init() {
 	core.Register(&core.Property{
 		ID:    "C09",
 		Level: "model_checking",
-		Rule: "universe = all sequences of length 2 and 3 (thorough: also length 4 over the 8 most interacting changes) over a catalogue of 19 interacting changes (a change that copies captured code to a later place and one that matches both levels of the result, an import-guarded change on a file where a parameter shadows the package name, a deletion of a statement that contains a comment group, a change that uses the metavariable names of the others as ordinary names, B matches only A's output, duplication, consumption of what a later change needs, no-ops, a change failing with an unbound '+' metavariable, a change whose result alone is unparseable, statement/declaration/import changes; repetitions allowed) x 11 files x packaging {one patch file, repeated -p (same path for a repeated change), -P list, -P list with blank lines and without final newline, stdin, -p mixed with -P, library API}. " +
+		Rule: "universe = all sequences of length 2 and 3 (thorough: also length 4 over the 8 most interacting changes) over a catalogue of 23 interacting changes (a change that adds an import with its first use and one guarded by that import, an unwrapping change and one with a repeated metavariable meeting original and introduced code, a change that copies captured code to a later place and one that matches both levels of the result, an import-guarded change on a file where a parameter shadows the package name, a deletion of a statement that contains a comment group, a change that uses the metavariable names of the others as ordinary names, B matches only A's output, duplication, consumption of what a later change needs, no-ops, a change failing with an unbound '+' metavariable, a change whose result alone is unparseable, statement/declaration/import changes; repetitions allowed) x 13 files x packaging {one patch file, repeated -p (same path for a repeated change), -P list, -P list with blank lines and without final newline, stdin, -p mixed with -P, library API}. " +
 			"Differential oracle without model: the combined run's result is canonically identical to the chain of single-change runs, each on the bytes the previous one produced; a failing step makes the combined run exit non-zero and leave the file byte-identical. non-trivial = at least two changes of the history apply in the chain",
 		Assumptions: []string{"histories in which a chain step fails only because its intermediate text does not parse, while the combined run reaches a parseable result, are enumerated but excluded from the verdict"},
 		Bounds: func(tier string) map[string]any {
@@ -43,7 +43,7 @@ func c09MaxLen(tier string) int {
 	return 3
 }
 
-var c09Order = []string{"A", "B", "C", "D", "E", "F", "G", "H", "I", "J", "K", "L", "M", "N", "O", "Q", "R", "S", "T"}
+var c09Order = []string{"A", "B", "C", "D", "E", "F", "G", "H", "I", "J", "K", "L", "M", "N", "O", "Q", "R", "S", "T", "U", "V", "W", "X"}
 
 func c09Changes() map[string]*model.Change {
 	xm := []model.MetaVar{{Name: "x", Kind: "expression"}}
@@ -72,6 +72,12 @@ func c09Changes() map[string]*model.Change {
 		"S": {Name: "S", Kind: "expr", Lines: model.L("-wrap(DOTS_1)", "+unwrap(DOTS_1)")},
 		// T is guarded by an import whose package name a parameter of the file shadows
 		"T": {Name: "T", Kind: "expr", Imports: []model.Import{{Tag: " ", Path: "pk/foo"}}, Lines: model.L("-foo.Bar()", "+foo.Baz()")},
+		// U adds an import together with its first use; V is guarded by that import and keeps using it
+		"U": {Name: "U", Kind: "expr", Imports: []model.Import{{Tag: "+", Path: "time"}}, Lines: model.L("-now()", "+time.Now()")},
+		"V": {Name: "V", Kind: "expr", Meta: xm, Imports: []model.Import{{Tag: " ", Path: "time"}}, Lines: model.L("-fmt.Println(x)", "+fmt.Print(x)")},
+		// W unwraps; X has a repeated metavariable whose two occurrences then meet original and introduced code
+		"W": {Name: "W", Kind: "expr", Meta: xm, Lines: model.L("-wrap(x)", "+x")},
+		"X": {Name: "X", Kind: "expr", Meta: xm, Lines: model.L("-pair(x, x)", "+single(x)")},
 		"N": {Name: "N", Kind: "expr", Meta: xm, Imports: []model.Import{{Tag: "+", Path: "new/q"}}, Lines: model.L("-b1(x)", "+q.B1(x)")},
 	}
 }
@@ -87,6 +93,8 @@ var c09Files = [][2]string{
 	{"closer", "package p\n\nfunc g() {\n\ta1(1)\n\tx.Close(v)\n\tother.Close(w)\n}\n"},
 	{"commented", "package p\n\nfunc f1() {\n\tsetup0()\n\tdebug(func() {\n\t\t// inner comment\n\t\twork()\n\t})\n\tv := a1(1) // first\n\t// own line\n\tmid() /* inner */\n\tuse(v) // last\n\ta1(2) // keep\n\tb1(3)\n}\n\n// doc of g\nfunc g() {\n\tc1(4, 4) // pair\n}\n"},
 	{"wraps", "package p\n\nimport \"pk/foo\"\n\nfunc f1(foo T) {\n\tfirst(wrap(1))\n\tmid()\n\tlast()\n\tuse(a1(foo.Bar()))\n\t_ = foo.Bar()\n}\n"},
+	{"timed", "package p\n\nimport \"fmt\"\n\nfunc g() {\n\tfmt.Println(now())\n\ta1(1)\n}\n"},
+	{"pairs", "package p\n\nfunc f1(v int) {\n\tpair(v, wrap(v))\n\tpair(wrap(v.w), v.w)\n\ta1(v)\n}\n"},
 	{"nested", "package p\n\nvar _ = a1(a1(1))\n\nfunc f2() {\n\tb1(2)\n}\n"},
 }
 
@@ -108,15 +116,22 @@ func c09Gen(tier string, emit func(any)) {
 				continue
 			}
 		}
+		// quick: triples with the later additions only on the files written for them
 		newer := false
+		written := map[string]bool{}
 		for _, id := range s {
-			if strings.Contains("QRST", id) {
-				newer = true
+			switch {
+			case strings.Contains("QRST", id):
+				newer, written["commented"], written["wraps"] = true, true, true
+			case strings.Contains("UV", id):
+				newer, written["timed"] = true, true
+			case strings.Contains("WX", id):
+				newer, written["pairs"], written["wraps"] = true, true, true
 			}
 		}
 		for _, f := range c09Files {
-			if len(s) >= 3 && newer && f[0] != "commented" && f[0] != "wraps" && tier != "thorough" {
-				continue // quick: triples with the later additions on the files written for them
+			if len(s) >= 3 && newer && !written[f[0]] && tier != "thorough" {
+				continue
 			}
 			for _, p := range packagings {
 				if len(s) >= 3 && (p == "stdin" || p == "mixed" || p == "P-list-odd") && f[0] != "a1" && f[0] != "nested" {
